@@ -59,6 +59,25 @@ type Rect struct {
 	HiK []int    `json:"hik"`
 }
 
+type CbEntry struct {
+	Lo  []*int64 `json:"lo"`
+	LoK []int    `json:"lok"`
+	Hi  []*int64 `json:"hi"`
+	HiK []int    `json:"hik"`
+	LI  []bool   `json:"li"`
+	RI  []bool   `json:"ri"`
+	T   bool     `json:"t"`
+	F   bool     `json:"f"`
+}
+
+// CbProbe: checkInAnyRange over index rows S,E driven with pseudo-random call-back marks (one per visited rectangle)
+type CbProbe struct {
+	S     int       `json:"s"`
+	E     int       `json:"e"`
+	Table []CbEntry `json:"table"`
+	Final [2]int    `json:"final"` // canBeTrue, canBeFalse; -1 error; -2 panic
+}
+
 type CaseOut struct {
 	ID     int     `json:"id"`
 	In     *CaseIn `json:"in"`
@@ -71,6 +90,7 @@ type CaseOut struct {
 	ScanErr string `json:"scanerr"`
 	Ranges [][2]int `json:"ranges"`
 	Binary bool    `json:"binary"` // CanDoBinarySearch
+	CbProbes []CbProbe `json:"cbprobes"`
 	MayBe  []int   `json:"maybe"`  // per probe (first nfrag probes are the single fragments): 1/0, -1 error, -2 panic
 	Rects  []Rect  `json:"rects"`  // min/max rectangles per fragment (CheckInRange stream)
 	Marks  [][2]int `json:"marks"` // per rect: canBeTrue, canBeFalse (or -1,-1 on error / -2 panic)
@@ -669,6 +689,97 @@ func runCase(id int, in *CaseIn) *CaseOut {
 					break
 				}
 			}
+		}
+	}
+
+	// checkInAnyRange with pseudo-random call-back marks: ties the OR-combination / early exits / rectangle
+	// generation of the code to the model's ciar independently of any condition
+	{
+		hb, _ := json.Marshal(in)
+		var h uint64 = 1469598103934665603
+		for _, b := range hb {
+			h = (h ^ uint64(b)) * 1099511628211
+		}
+		rnd := gen.New(h)
+		var cps [][2]int
+		cps = append(cps, in.Probes...)
+		for f := 0; f < out.NFrag && f < 3; f++ {
+			cps = append(cps, [2]int{f, f + 1})
+		}
+		if len(cps) > 5 {
+			cps = cps[:5]
+		}
+		for _, pr := range cps {
+			kc2, e1 := newCond()
+			idx, _, e2 := w.build()
+			if e1 != nil || e2 != nil || out.Used == 0 {
+				continue
+			}
+			used := out.Used
+			cols := make([]*sparseindex.ColumnRef, used)
+			for c := 0; c < used; c++ {
+				cols[c] = sparseindex.NewColumnRef(keyName(c), types[c], idx.Column(c))
+			}
+			L := make([]*sparseindex.FieldRef, used)
+			R := make([]*sparseindex.FieldRef, used)
+			for c := 0; c < used; c++ {
+				L[c] = sparseindex.NewFieldRef(cols, c, pr[0])
+				if L[c].IsNull() {
+					L[c].SetPositiveInfinity()
+				}
+				R[c] = sparseindex.NewFieldRef(cols, c, pr[1])
+				if R[c].IsNull() {
+					R[c].SetPositiveInfinity()
+				}
+			}
+			cp := CbProbe{S: pr[0], E: pr[1], Table: []CbEntry{}, Final: [2]int{-1, -1}}
+			end := func(c int, f *sparseindex.FieldRef) (*int64, int) {
+				if f.IsNegativeInfinity() {
+					return nil, -1
+				}
+				if f.IsPositiveInfinity() {
+					return nil, 1
+				}
+				col, row := sparseindex.VerifFieldCell(f)
+				if col == nil || col.IsNil(row) {
+					return nil, 1
+				}
+				var v tval
+				switch in.Types[c] {
+				case "int":
+					v.i, _ = col.IntegerValue(row)
+				case "float":
+					v.f, _ = col.FloatValue(row)
+				case "string":
+					b, _ := col.BytesUnsafe(row)
+					v.s = string(b)
+				case "bool":
+					v.b, _ = col.BooleanValue(row)
+				}
+				return encs[c].enc(v), 0
+			}
+			cb := func(rgs []*sparseindex.Range) (sparseindex.Mark, error) {
+				e := CbEntry{T: rnd.Bool(), F: rnd.Bool()}
+				for c, rg := range rgs {
+					l, r, li, ri := sparseindex.VerifRangeEnds(rg)
+					lo, lok := end(c, l)
+					hi, hik := end(c, r)
+					e.Lo, e.LoK, e.Hi, e.HiK = append(e.Lo, lo), append(e.LoK, lok), append(e.Hi, hi), append(e.HiK, hik)
+					e.LI, e.RI = append(e.LI, li), append(e.RI, ri)
+				}
+				cp.Table = append(cp.Table, e)
+				return sparseindex.NewMark(e.T, e.F), nil
+			}
+			var m sparseindex.Mark
+			var e3 error
+			p := guard(func() { m, e3 = kc2.VerifCheckInAnyRange(used, L, R, types, cb) })
+			if p != "" {
+				cp.Final = [2]int{-2, -2}
+			} else if e3 == nil {
+				t, f := markBits(m)
+				cp.Final = [2]int{b2i(t), b2i(f)}
+			}
+			out.CbProbes = append(out.CbProbes, cp)
 		}
 	}
 
